@@ -8,6 +8,7 @@ import (
 	"strings"
 	"sync"
 	"sync/atomic"
+	"time"
 
 	"verifharness/hxlib"
 )
@@ -78,11 +79,13 @@ func (b *builder) add(kind string, lines []string, noModel bool) {
 	b.cases = append(b.cases, hxlib.Case{Lines: lines, Kind: kind, NonTrivial: hasPanic(lines), NoModel: noModel})
 }
 
+// prologue: bring the modules up; `settle` before the first reading because Start() may return before the
+// start routine's goroutine has run its deferred ctrlFuncRunning.UnSet().
 func prologue(api bool) []string {
 	if api {
 		return []string{"api", "start", "settle", "status"}
 	}
-	return []string{"mod A ok ok ok", "mod B - - -", "start", "status"}
+	return []string{"mod A ok ok ok", "mod B - - -", "start", "settle", "status"}
 }
 
 func epilogue() []string { return []string{"status", "settle", "shutdown"} }
@@ -466,7 +469,7 @@ func generate(r *hxlib.Run, emit func(hxlib.Case)) {
 	rng := r.Rng
 
 	// regression corpus: the hand-written scenarios of the first hour
-	b.add("corpus", []string{"mod A ok ok ok", "mod B ok ok ok", "start", "status", "spawn 1 runworker p:str", "spawn 2 runworker ok",
+	b.add("corpus", []string{"mod A ok ok ok", "mod B ok ok ok", "start", "settle", "status", "spawn 1 runworker p:str", "spawn 2 runworker ok",
 		"spawn 3 startworker p:nil", "spawn 4 svc p:err,p:rtidx,ok", "spawn 5 mt-run-high p:struct", "spawn 6 mt-run-med p:rtnil",
 		"spawn 7 mt-start-low p:evil", "spawn 8 task-queue p:str", "spawn 9 hook-trigger p:int", "finish 2", "finish 1", "finish 3",
 		"finish 4", "finish 4", "finish 4", "finish 5", "finish 6", "finish 7", "finish 8", "requeue 8 task-queue ok", "finish 8",
@@ -551,6 +554,8 @@ func generate(r *hxlib.Run, emit func(hxlib.Case)) {
 
 var (
 	nChildren, nCrashed, nHung, nSkipped, nBadCases int64
+	slowMu                                          sync.Mutex
+	slowCases                                       []string
 )
 
 func suspicious(outs []string) bool {
@@ -595,7 +600,13 @@ func runPool(r *hxlib.Run, cases []hxlib.Case, emit func(hxlib.Case)) {
 					continue
 				}
 				atomic.AddInt64(&nChildren, 1)
+				t0 := time.Now()
 				outs := runCaseInChild(cases[i].Lines)
+				if d := time.Since(t0); d > 5*time.Second {
+					slowMu.Lock()
+					slowCases = append(slowCases, fmt.Sprintf("%.1fs %s: %s", d.Seconds(), cases[i].Kind, strings.Join(cases[i].Lines, "; ")))
+					slowMu.Unlock()
+				}
 				if suspicious(outs) {
 					atomic.AddInt64(&nBadCases, 1)
 				}
@@ -632,5 +643,6 @@ func extra(r *hxlib.Run) map[string]any {
 		"children_crashed":       atomic.LoadInt64(&nCrashed),
 		"children_hung":          atomic.LoadInt64(&nHung),
 		"cases_skipped_failfast": atomic.LoadInt64(&nSkipped),
+		"cases_slower_than_5s":   append([]string{}, slowCases...),
 	}
 }
